@@ -86,8 +86,28 @@ def run_case(case, ctx):
     weighted = bool(rng.rand() < 0.35)
     frame = bool(rng.rand() < 0.2)
     X, y = make_data(rng, n, p, noise, positive)
+    # container / dtype / scale classes: the loss is scale-equivariant and the estimator documents that the
+    # target "will be cast to X's dtype if necessary"
+    variant = ["float64", "float64", "float64", "int-target", "int-features", "large-scale", "float32-features",
+               "fortran-order"][(sub // 3) % 8]
+    if variant == "int-target":
+        y = numpy.round(y * 10).astype(numpy.int64)
+    elif variant == "int-features":
+        X = numpy.round(X * 10).astype(numpy.int64)
+        y = X @ rng.uniform(-0.3, 0.3, size=p) + rng.randn(n)
+        if len(numpy.unique(X, axis=0)) < n // 2 or numpy.linalg.matrix_rank(
+                numpy.hstack([X, numpy.ones((n, 1))])) < p + 1:
+            variant = "float64"
+            X, y = make_data(rng, n, p, noise, positive)
+    elif variant == "large-scale":
+        y = y * 1e5 + 3e5
+    elif variant == "float32-features":
+        X = X.astype(numpy.float32)
+    elif variant == "fortran-order":
+        X = numpy.asfortranarray(X)
+    ctx.cls("variant=" + variant)
     w = rng.randint(1, 5, size=n).astype(float) if weighted else None
-    cfg = {"q": q, "n": n, "p": p, "noise": noise, "positive": positive,
+    cfg = {"q": q, "n": n, "p": p, "noise": noise, "positive": positive, "variant": variant,
            "fit_intercept": fit_intercept, "weighted": weighted, "frame": frame, "sub": sub}
     ctx.cls("noise=" + noise)
     ctx.cls("q<0.5" if q < 0.5 else ("q=0.5" if q == 0.5 else "q>0.5"))
